@@ -69,6 +69,11 @@ pub fn close_window(w: &mut World) {
                 }
             }
         }
+        // a source that left the loop from its own callback (or by Remove) must have been unregistered by now
+        let still_registered = self_removed && s.registered && !s.fault_fired;
+        if still_registered && bad.is_none() {
+            bad = Some(("removed-source-left-registered", format!("the source is removed but its last registration call left it registered, calls {:?}", calls)));
+        }
         let errd = s.pe_err;
         if let Some((c, d)) = bad {
             let culprit = if errd { format!("{}-after-error", c) } else { c.to_string() };
@@ -125,6 +130,7 @@ pub fn pe_end(uid: Uid, action: Option<Ret>, err: bool) {
             match eff {
                 Ret::Disable => {
                     s.st = St::Disabled;
+                    s.disabled_by_post_action = true;
                     s.arm = None;
                     s.touched_at = d;
                 }
@@ -565,7 +571,12 @@ pub fn on_callback(uid: Uid, ev: Ev) -> CbRet {
             w.alarm("C01.not_live", &format!("callback-on-{}-source-{}", st_name(st), when), detail.clone());
             match st {
                 St::Removed => w.alarm("C06.silent_after_remove", &format!("callback-after-remove-{}", when), detail),
-                St::Disabled => w.alarm("C07.silent_while_disabled", &format!("callback-while-disabled-{}", when), detail),
+                St::Disabled => {
+                    if w.srcs[uid].disabled_by_post_action {
+                        w.alarm("C09.applied_once", "disable-post-action-did-not-silence-the-source", detail.clone());
+                    }
+                    w.alarm("C07.silent_while_disabled", &format!("callback-while-disabled-{}", when), detail)
+                }
                 St::Rejected | St::Fresh => w.alarm("C15.as_if_not_made", "callback-for-rejected-source", detail),
                 _ => {}
             }
